@@ -39,6 +39,9 @@ def vf_jobs(tier):
         J.append(Job('bisect-step-m%d'%m,'vf/bisect_step.c',defs=['-DM=%d'%m],cuts={'vorbisfile.c':['_bisect_forward_serialno','_seek_helper','_get_next_page','_get_prev_page_serial','_fetch_headers','_initial_pcmoffset']},
             unwind=10,object_bits=12,checks=['leak'],witnesses=['link recorded','more links follow','deeper activation failed','header fetch failed','i/o failed during bisection','next link has no audio pages'],models=ENV+['abstract file: current link + start of the next (M-frame(c)); contract of the recursive activation'],
             tags=['C09','C10','C13','C03'],functions=['_bisect_forward_serialno','_lookup_serialno','_lookup_page_serialno'],bounds='one activation at link index %d, links of 200..40000 bytes (linear branch of the bisection), <=8 page fetches; any number of further links (contract)'%m,weight=2))
+    J.append(Job('bisect-step-pcmoff','vf/bisect_step.c',defs=['-DM=0','-DREAL_PCMOFF','-DENV_BUDGET=6'],cuts={'vorbisfile.c':['_bisect_forward_serialno','_seek_helper','_get_next_page','_get_prev_page_serial','_fetch_headers']},
+        unwind=10,unwindset=[('env_fill_page',None,28)],object_bits=12,checks=['leak'],witnesses=['link recorded','deeper activation failed'],models=ENV+['abstract file; _initial_pcmoffset REAL (page/packet stubs of vf_env.h)'],tags=['C09','C03'],
+        functions=['_bisect_forward_serialno','_initial_pcmoffset'],bounds='one activation at link index 0 with the real initial-offset computation; <=8 page fetches, <=6 packet events',weight=2))
     for kl in ([2] if q else [2]):   # 3 links: no verdict in 3600 s / 14 GB (measured)
         J.append(Job('chain-table-%d'%kl,'vf/chain_table.c',defs=['-DKL=%d'%kl,'-DFETCHES=%d'%(10 if q else 12)],cuts={'vorbisfile.c':['_seek_helper','_get_next_page','_get_prev_page_serial','_fetch_headers','_initial_pcmoffset','ov_raw_seek']},
             unwind=(12 if q else 14),object_bits=12,witnesses=['chain opened','serial number with the top bit set'],models=ENV+['abstract chained file (M-frame(c))'],tags=['C09','C03','C13'],checks=[],
